@@ -12,6 +12,7 @@ pub fn model(tier: Tier, world: &str) -> Hist {
     roots.extend(tokenless_roots(&w, &s0));
     roots.extend(killed_root(&w, &s0));
     let mut alpha = Alphabet::standard(vec![0, 1], vec![0, 1]);
+    alpha.receivership = true;
     alpha.tokenless = true;
     alpha.vault_swaps = true;
     if tier == Tier::Thorough {
